@@ -135,7 +135,8 @@ def ast_stats(ast):
     n_tied = sum(1 for gs in ast['first'] for g in gs if len(g) > 1)
     return {
         'na=%d' % ast['na']: 1,
-        'students=%d' % ast['n1']: 1,
+        ('students=%d' % ast['n1']) if ast['n1'] < 100 else 'students>=100': 1,
+        'large-ids(>=1000)': 1 if max(ast['n1'], ast['n2']) >= 1000 else 0,
         'has_first_side_tie': 1 if n_tied else 0,
         'has_empty_list': 1 if any(len(gs) == 0 for gs in ast['first']) else 0,
         'has_zero_capacity': 1 if any(p[1] == 0 for p in ast['projects']) or any(l[2] == 0 for l in ast['lecturers']) else 0,
@@ -228,3 +229,51 @@ def enum_small(maxS=2, maxP=2):
                                     groups = [] if not studs else ([studs] if variant else [[s] for s in studs])
                                     lecturers.append([lq, tg, uq, groups])
                                 yield dict(na=na, n1=S, n2=P, n3=L, first=first, projects=projects, lecturers=lecturers)
+
+
+def gen_ast_large(rng, base, na=None, side=None):
+    """An abstract file with more than `base` agents on one side, sparse elsewhere: ids just above the base (base + k)
+    and the matching small ids k occur in lists of neighbouring agents, so that id arithmetic which is only injective
+    (or only correctly printed / parsed) for small ids shows.  side 1 = many first-side agents, 2 = many projects."""
+    na = na or rng.choice([2, 3])
+    side = side or rng.choice([1, 2])
+    N = base + rng.randint(6, 12)
+    small = rng.randint(2, 3)
+    if side == 1:
+        S, P = N, small
+    else:
+        S, P = small, N
+    L = P if na == 2 else rng.randint(1, 3)
+    first = []
+    hot = set([base + k for k in range(1, 7)]) | set(range(1, 7))
+    for s in range(1, S + 1):
+        if side == 1:
+            if s in hot or rng.random() < 0.02:
+                prefs = rng.sample(range(1, P + 1), rng.randint(1, P))
+            else:
+                prefs = [rng.randint(1, P)]
+        else:
+            pool = sorted(hot) + rng.sample(range(7, base), 3)
+            prefs = rng.sample(pool, rng.randint(2, min(7, len(pool))))
+        first.append(tie_groups(rng, prefs, rng.choice([0.0, 0.3, 0.6])))
+    proj_lec = list(range(1, P + 1)) if na == 2 else [rng.randint(1, L) for _ in range(P)]
+    projects = [[0, rng.choice([1, 2, N]), proj_lec[j]] for j in range(P)]
+    lecturers = []
+    for k in range(1, L + 1):
+        if na == 2:
+            lq, uq = projects[k - 1][0], projects[k - 1][1]
+            tg = uq
+        else:
+            uq = rng.choice([1, 2, N])
+            tg = rng.randint(0, uq)
+            lq = 0
+        studs = [s for s in range(1, S + 1) if any(proj_lec[p - 1] == k for g in first[s - 1] for p in g)]
+        # keep the hot ids away from the ends and in random order; the bulk in increasing order
+        hs = [s for s in studs if s in hot]
+        rest = [s for s in studs if s not in hot]
+        rng.shuffle(hs)
+        cut = rng.randint(0, min(5, len(rest)))
+        order = rest[:cut] + hs + rest[cut:]
+        groups = tie_groups(rng, order, rng.choice([0.0, 0.0, 0.2]))
+        lecturers.append([lq, tg, uq, groups])
+    return dict(na=na, n1=S, n2=P, n3=L, first=first, projects=projects, lecturers=lecturers)
